@@ -17,7 +17,7 @@ import (
 //	autoinc <t>.<c>
 //	gen <t>.<c> <normalised expression>
 //	index <t>.<name> unique=<bool> (<col|expr:…>[ desc],…) where=<normalised predicate>
-//	fk <t> (<c>,…)->(<parent>)(<c>,…) del=<action> upd=<action>
+//	fk <t> (<c>,…)->(<parent>)(<c>,…) del=<action> upd=<action>   (column pairs ordered by child column)
 //	check <t> [<name>] <normalised expression>
 //
 // Facts() derives them from a model; DBFacts reads them from a live database through PRAGMAs and its
@@ -90,7 +90,8 @@ func (s Schema) Facts() Facts {
 			out = append(out, fmt.Sprintf("index %s.%s unique=%v (%s) where=%s", t.Name, i.Name, i.Unique, strings.Join(ps, ","), normExpr(i.Where)))
 		}
 		for _, f := range t.FKs {
-			out = append(out, fmt.Sprintf("fk %s (%s)->%s(%s) del=%s upd=%s", t.Name, strings.Join(f.Cols, ","), f.RefTable, strings.Join(f.RefCols, ","), actionOr(f.OnDelete), actionOr(f.OnUpdate)))
+			from, to := sortPairs(f.Cols, f.RefCols)
+			out = append(out, fmt.Sprintf("fk %s (%s)->%s(%s) del=%s upd=%s", t.Name, strings.Join(from, ","), f.RefTable, strings.Join(to, ","), actionOr(f.OnDelete), actionOr(f.OnUpdate)))
 		}
 		for _, c := range t.Checks {
 			out = append(out, fmt.Sprintf("check %s [%s] %s", t.Name, c.Name, normExpr(c.Expr)))
@@ -98,6 +99,23 @@ func (s Schema) Facts() Facts {
 	}
 	sort.Strings(out)
 	return out
+}
+
+// sortPairs orders the (child column, parent column) pairs of a foreign key by child column: what a
+// foreign key means is its PAIRING, not the order in which the pairs were written; (a,b)->(x,y) and
+// (b,a)->(y,x) are the same constraint, (b,a)->(x,y) is a different one.
+func sortPairs(from, to []string) ([]string, []string) {
+	n := min(len(from), len(to))
+	ix := make([]int, n)
+	for i := range ix {
+		ix[i] = i
+	}
+	sort.SliceStable(ix, func(a, b int) bool { return from[ix[a]] < from[ix[b]] })
+	f, t := make([]string, n), make([]string, n)
+	for i, k := range ix {
+		f[i], t[i] = from[k], to[k]
+	}
+	return f, t
 }
 
 func actionOr(a string) string {
@@ -618,7 +636,8 @@ func DBFacts(db *sql.DB) (Facts, error) {
 		}
 		for _, id := range ids {
 			f := fks[id]
-			out = append(out, fmt.Sprintf("fk %s (%s)->%s(%s) del=%s upd=%s", name, strings.Join(f.from, ","), f.table, strings.Join(f.to, ","), f.od, f.ou))
+			from, to := sortPairs(f.from, f.to)
+			out = append(out, fmt.Sprintf("fk %s (%s)->%s(%s) del=%s upd=%s", name, strings.Join(from, ","), f.table, strings.Join(to, ","), f.od, f.ou))
 		}
 	}
 	sort.Strings(out)
